@@ -265,11 +265,11 @@ Definition pc_inv (s : shared) (t : nat) (p : pc) : Prop :=
   match p with
   | PStart _ | GWalk _ _ | PutCas _ _ _ | PDone => True
   | PutFast k v h => h < length (heap s) /\ keyat s h = k
-  | PutLock _ _ _ h | RmLock _ h | CpLock _ _ h => h < length (heap s)
-  | PutReval _ _ _ h | RmReval _ h | CpReval _ _ h | PutUnlock h _ _ => lock_at s h = Some t
+  | PutLock _ _ _ h | RmLock _ _ h | CpLock _ _ h => h < length (heap s)
+  | PutReval _ _ _ h | RmReval _ _ h | CpReval _ _ h | PutUnlock h _ _ => lock_at s h = Some t
   | PutWalk k _ _ h p => exists pre, walking s t k h pre p
-  | RmWalk k h pred e | CpWalk k _ h pred e => exists pre, walking s t k h pre e /\ pred_of pre pred
-  | RmFound k h pred e nxt | CpFound k _ h pred e nxt =>
+  | RmWalk k _ h pred e | CpWalk k _ h pred e => exists pre, walking s t k h pre e /\ pred_of pre pred
+  | RmFound k _ h pred e nxt | CpFound k _ h pred e nxt =>
       exists pre, walking s t k h pre e /\ pred_of pre pred /\ keyat s e = k /\ cnext (cell_at s e) = nxt
   | RmUnlink k h pred e nxt ev | CpApply k h pred e nxt ev _ =>
       exists pre, walking s t k h pre e /\ pred_of pre pred /\ keyat s e = k /\ cnext (cell_at s e) = nxt
@@ -279,8 +279,8 @@ Definition pc_inv (s : shared) (t : nat) (p : pc) : Prop :=
 (* the mutex a thread holds, according to its pc *)
 Definition held (p : pc) : option nat :=
   match p with
-  | PutReval _ _ _ h | RmReval _ h | CpReval _ _ h | PutUnlock h _ _
-  | PutWalk _ _ _ h _ | RmWalk _ h _ _ | CpWalk _ _ h _ _ | RmFound _ h _ _ _ | CpFound _ _ h _ _ _
+  | PutReval _ _ _ h | RmReval _ _ h | CpReval _ _ h | PutUnlock h _ _
+  | PutWalk _ _ _ h _ | RmWalk _ _ h _ _ | CpWalk _ _ h _ _ | RmFound _ _ h _ _ _ | CpFound _ _ h _ _ _
   | RmUnlink _ h _ _ _ _ | CpApply _ h _ _ _ _ _ => Some h
   | _ => None
   end.
@@ -296,7 +296,9 @@ Definition pc_cur (p : pc) (o : opn) : Prop :=
   | PutFast k v _ => o = OTryInsert k v
   | PutUnlock _ _ (Some o') => o = o'
   | PutUnlock _ _ None => True
-  | RmLock k _ | RmReval k _ | RmWalk k _ _ _ | RmFound k _ _ _ _ | RmUnlink k _ _ _ _ _ => o = ORemove k
+  | RmLock k obs _ | RmReval k obs _ | RmWalk k obs _ _ _ | RmFound k obs _ _ _ _ => o = rm_op k obs
+  (* the unlink step no longer knows obs; a conditional removal gets here only with obs = ev *)
+  | RmUnlink k _ _ _ _ ev => o = ORemove k \/ o = OCondRemove k ev
   | CpLock k f _ | CpReval k f _ | CpWalk k f _ _ _ | CpFound k f _ _ _ _ => o = OCompute k f
   | CpApply k _ _ _ _ seen nv => exists f, o = OCompute k f /\ nv = f seen
   | PDone => False
@@ -933,7 +935,7 @@ Proof.
       { destruct Hsh as (_ & _ & _ & Hbins). destruct (Hbins _ (bini_lt (op_key o))) as (l & Hok).
         pose proof Hok as (Hs & _). rewrite Hb in Hs. destruct (pseg_next_some _ _ _ Hs) as (l' & ->).
         eapply bin_ok_in; [exact Hok|left; reflexivity]. }
-      destruct o as [k|k v|k v|k|k f]; cbn [op_key] in *.
+      destruct o as [k|k v|k v|k|k ov|k f]; cbn [op_key] in *.
       * shape Hcur. apply (binv_upd_local _ _ _ _ _ Hinv Ht); [exact I|eapply thr_cur_moved; [exact Hcur|reflexivity]|rewrite Hpc; reflexivity].
       * shape Hcur. apply (binv_upd_local _ _ _ _ _ Hinv Ht); [exact Hh|eapply thr_cur_moved; [exact Hcur|reflexivity]|rewrite Hpc; reflexivity].
       * destruct (N.eqb_spec (ckey (cell_at (sh c) h)) k) as [Hk|Hk]; shape Hcur.
@@ -941,7 +943,8 @@ Proof.
         -- apply (binv_upd_local _ _ _ _ _ Hinv Ht); [exact Hh|eapply thr_cur_moved; [exact Hcur|reflexivity]|rewrite Hpc; reflexivity].
       * shape Hcur. apply (binv_upd_local _ _ _ _ _ Hinv Ht); [exact Hh|eapply thr_cur_moved; [exact Hcur|reflexivity]|rewrite Hpc; reflexivity].
       * shape Hcur. apply (binv_upd_local _ _ _ _ _ Hinv Ht); [exact Hh|eapply thr_cur_moved; [exact Hcur|reflexivity]|rewrite Hpc; reflexivity].
-    + destruct o as [k|k v|k v|k|k f]; cbn [op_key] in *; shape Hcur;
+      * shape Hcur. apply (binv_upd_local _ _ _ _ _ Hinv Ht); [exact Hh|eapply thr_cur_moved; [exact Hcur|reflexivity]|rewrite Hpc; reflexivity].
+    + destruct o as [k|k v|k v|k|k ov|k f]; cbn [op_key] in *; shape Hcur;
         (apply (binv_upd_local _ _ _ _ _ Hinv Ht); [exact I| first [apply thr_cur_ended | eapply thr_cur_moved; [exact Hcur|reflexivity]] |rewrite Hpc; reflexivity]).
   - (* GWalk *)
     destruct (N.eqb_spec (ckey (cell_at (sh c) p)) k) as [Hk|Hk]; [|destruct (cnext (cell_at (sh c) p)) as [q|] eqn:Hq]; shape Hcur;
@@ -1008,9 +1011,13 @@ Proof.
       exists (pre ++ [e]). split; [eapply walking_advance; eassumption|apply pred_of_snoc].
     + apply (binv_upd_local _ _ _ _ _ Hinv Ht); [exact (proj1 Hw)|eapply thr_cur_moved; [exact Hcur|exact I]|rewrite Hpc; reflexivity].
   - (* RmFound *)
-    destruct Hpi as (pre & Hw & Hpr & Hk & Hn). shape Hcur.
-    apply (binv_upd_local _ _ _ _ _ Hinv Ht); [|eapply thr_cur_moved; [exact Hcur|exact Hcu]|rewrite Hpc; reflexivity].
-    exists pre. auto.
+    destruct Hpi as (pre & Hw & Hpr & Hk & Hn). subst o0.
+    destruct obs as [ov|]; [destruct (Z.eqb_spec ov (cval (cell_at (sh c) e))) as [Ev|Ev]|]; shape Hcur.
+    + apply (binv_upd_local _ _ _ _ _ Hinv Ht); [|eapply thr_cur_moved; [exact Hcur|right; rewrite <- Ev; reflexivity]|rewrite Hpc; reflexivity].
+      exists pre. auto.
+    + apply (binv_upd_local _ _ _ _ _ Hinv Ht); [exact (proj1 Hw)|eapply thr_cur_moved; [exact Hcur|exact I]|rewrite Hpc; reflexivity].
+    + apply (binv_upd_local _ _ _ _ _ Hinv Ht); [|eapply thr_cur_moved; [exact Hcur|left; reflexivity]|rewrite Hpc; reflexivity].
+      exists pre. auto.
   - (* RmUnlink *)
     destruct Hpi as (pre & Hw & Hpr & Hk & Hn & Hv). subst nxt.
     destruct (unlink_effect _ _ _ _ _ _ _ Hsh Hw Hpr) as (Hsh' & Hfr & Hlocks & _).
@@ -1908,6 +1915,16 @@ Lemma kapply_remove st : kapply st (KRemove st) = Some None.
 Proof. cbn. rewrite oeqb_refl. reflexivity. Qed.
 Lemma kapply_compute f seen : kapply (Some seen) (KCompute f (Some seen) (f seen)) = Some (f seen).
 Proof. cbn. rewrite Z.eqb_refl, oeqb_refl. reflexivity. Qed.
+(* the conditional removal (retain): absent key, value still the observed one, value changed *)
+Lemma kapply_cond_none obs : kapply None (KCondRemove obs) = Some None.
+Proof. reflexivity. Qed.
+Lemma kapply_cond_hit obs : kapply (Some obs) (KCondRemove obs) = Some None.
+Proof. cbn. rewrite Z.eqb_refl. reflexivity. Qed.
+Lemma kapply_cond_miss obs ev : obs <> ev -> kapply (Some ev) (KCondRemove obs) = Some (Some ev).
+Proof. intros H. cbn. destruct (Z.eqb_spec ev obs) as [E|E]; [congruence|reflexivity]. Qed.
+(* whatever the recorded result, a conditional removal is the same abstract operation *)
+Lemma kop_of_cond k' obs r : kop_of (OCondRemove k' obs) r = KCondRemove obs.
+Proof. destruct r; reflexivity. Qed.
 
 (* ---------- establishing the new linearization point ---------- *)
 Lemma trv_new pst n s' : trv (upd_pst pst (n + 1) s') (n + 1) = absv s'.
@@ -1971,6 +1988,11 @@ Proof. intros Hi Hw Hk Hn. destruct (append_effect2 _ _ _ _ _ _ 0%Z Hi Hw Hk Hn)
 
 Lemma op_key_put k' v nr : op_key (put_op k' v nr) = k'.
 Proof. destruct nr; reflexivity. Qed.
+Lemma op_key_rm k' obs : op_key (rm_op k' obs) = k'.
+Proof. destruct obs; reflexivity. Qed.
+(* a removal (conditional or not) that finds the key absent *)
+Lemma kapply_rm_absent k' obs : kapply None (kop_of (rm_op k' obs) RNone) = Some None.
+Proof. destruct obs; reflexivity. Qed.
 
 (* ---------- one step preserves the linearization invariant ---------- *)
 Lemma sh_finish c t r : sh (finish c t r) = sh c.
@@ -2035,7 +2057,7 @@ Proof.
   change (BinProto.get_thr (bump c) t) with (get_thr c t). change (sh (bump c)) with (sh c).
   unfold thr_cur in Hcu.
   destruct (at_ (get_thr c t)) as [o | k' p | k' v nr | k' v h | k' v nr h | k' v nr h | k' v nr h p | h r retry
-     | k' h | k' h | k' h pred e | k' h pred e nxt | k' h pred e nxt ev
+     | k' obs h | k' obs h | k' obs h pred e | k' obs h pred e nxt | k' h pred e nxt ev
      | k' f h | k' f h | k' f h pred p | k' f h pred p nxt | k' h pred p nxt seen nv | ] eqn:Hpc.
   all: try (assert (Ht : (t < length (thr c))%nat) by (apply thr_lt; left; rewrite Hpc; discriminate)).
   all: destruct (cur (get_thr c t)) as [o0|] eqn:Hcur; try discriminate Hcu; try contradiction Hcu.
@@ -2044,13 +2066,13 @@ Proof.
   all: try pose proof (LIN_inv_le _ _ _ _ _ _ HL Hcur) as Hiv.
   - (* PStart *) subst o0.
     destruct (bin_at (sh c) (bini (op_key o))) as [h|] eqn:Hb.
-    + destruct o as [k'|k' v|k' v|k'|k' f]; cbn [op_key] in *;
-        [ | | destruct (N.eqb_spec (ckey (cell_at (sh c) h)) k') as [Hk|Hk] | | ];
+    + destruct o as [k'|k' v|k' v|k'|k' ov|k' f]; cbn [op_key] in *;
+        [ | | destruct (N.eqb_spec (ckey (cell_at (sh c) h)) k') as [Hk|Hk] | | | ];
         intros _; rewrite (with_sh_bump c); 
         (eapply LIN_goto_silent'; [exact HL|exact Ht|exact Hcur|exact Hnu|exact Hsh|exact Hrel0|reflexivity|]);
         cbn [op_key pc_pend]; intros E; try exact I;
         (exists (now c + 1); split; [lia|]; rewrite upd_pst_new; apply Pk_head; [exact Hsh|rewrite <- E; exact Hb]).
-    + destruct o as [k'|k' v|k' v|k'|k' f]; cbn [op_key] in *; intros _; rewrite (with_sh_bump c).
+    + destruct o as [k'|k' v|k' v|k'|k' ov|k' f]; cbn [op_key] in *; intros _; rewrite (with_sh_bump c).
       * 
         eapply LIN_finish_direct'; [exact HL|exact Ht|exact Hcur|exact Hnu|exact Hsh|exact Hrel0|].
         apply new_pt_read; [exact Htr|exact Hiv|]. cbn [op_key]. intros E. rewrite absv_empty; [reflexivity|exact Hsh|rewrite <- E; exact Hb].
@@ -2059,6 +2081,9 @@ Proof.
       * 
         eapply LIN_goto_silent'; [exact HL|exact Ht|exact Hcur|exact Hnu|exact Hsh|exact Hrel0|reflexivity|intros _; exact I].
       * 
+        eapply LIN_finish_direct'; [exact HL|exact Ht|exact Hcur|exact Hnu|exact Hsh|exact Hrel0|].
+        apply new_pt_read; [exact Htr|exact Hiv|]. cbn [op_key]. intros E. rewrite absv_empty; [reflexivity|exact Hsh|rewrite <- E; exact Hb].
+      * (* conditional removal from an empty bin: a no-effect point *)
         eapply LIN_finish_direct'; [exact HL|exact Ht|exact Hcur|exact Hnu|exact Hsh|exact Hrel0|].
         apply new_pt_read; [exact Htr|exact Hiv|]. cbn [op_key]. intros E. rewrite absv_empty; [reflexivity|exact Hsh|rewrite <- E; exact Hb].
       * 
@@ -2146,15 +2171,27 @@ Proof.
       eapply LIN_goto_silent'; [exact HL|exact Ht|exact Hcur|exact Hnu|exact Hsh|exact Hrel0|reflexivity|intros _; exact I].
     + 
       eapply LIN_goto_unlock'; [exact HL|exact Ht|exact Hcur|exact Hnu|exact Hsh|exact Hrel0|].
-      apply new_pt_read; [exact Htr|exact Hiv|]. cbn [op_key]. intros E. subst k'.
-      rewrite (walking_miss _ _ _ _ _ Hsh Hw Hk Hq). reflexivity.
-  - (* RmFound *)
-    intros _; rewrite (with_sh_bump c). 
-    eapply LIN_goto_silent'; [exact HL|exact Ht|exact Hcur|exact Hnu|exact Hsh|exact Hrel0|reflexivity|intros _; exact I].
-  - (* RmUnlink *) subst o0. destruct Hpi as (pre & Hw & Hpr & Hk & Hn & Hv). subst nxt ev. intros Hsh'.
+      apply new_pt_read; [exact Htr|exact Hiv|]. rewrite op_key_rm. intros E. subst k'.
+      rewrite (walking_miss _ _ _ _ _ Hsh Hw Hk Hq). apply kapply_rm_absent.
+  - (* RmFound *) subst o0. destruct Hpi as (pre & Hw & Hpr & Hk & Hn).
+    destruct obs as [ov|]; [destruct (Z.eqb_spec ov (cval (cell_at (sh c) e))) as [Ev|Ev]|];
+      intros _; rewrite (with_sh_bump c).
+    + 
+      eapply LIN_goto_silent'; [exact HL|exact Ht|exact Hcur|exact Hnu|exact Hsh|exact Hrel0|reflexivity|intros _; exact I].
+    + (* the value is no longer the observed one: the conditional removal takes (no) effect here *)
+      eapply LIN_goto_unlock'; [exact HL|exact Ht|exact Hcur|exact Hnu|exact Hsh|exact Hrel0|].
+      apply new_pt_read; [exact Htr|exact Hiv|]. cbn [op_key rm_op]. intros E. rewrite E in Hw, Hk.
+      rewrite (walking_hit _ _ _ _ _ Hsh Hw Hk). rewrite kop_of_cond. apply kapply_cond_miss. exact Ev.
+    + 
+      eapply LIN_goto_silent'; [exact HL|exact Ht|exact Hcur|exact Hnu|exact Hsh|exact Hrel0|reflexivity|intros _; exact I].
+  - (* RmUnlink *) destruct Hpi as (pre & Hw & Hpr & Hk & Hn & Hv). subst nxt ev. intros Hsh'.
     pose proof (unlink_effect2 _ _ _ _ _ _ _ Hsh Hw Hpr Hk) as Hkv. 
-    eapply LIN_goto_unlock'; [exact HL|exact Ht|exact Hcur|exact Hnu|exact Hsh'|exact (proj1 Hkv)|].
-    eapply new_pt_write; [exact Htr|exact Hiv|exact Hkv|]. apply kapply_remove.
+    destruct Hcu as [-> | ->].
+    + eapply LIN_goto_unlock'; [exact HL|exact Ht|exact Hcur|exact Hnu|exact Hsh'|exact (proj1 Hkv)|].
+      eapply new_pt_write; [exact Htr|exact Hiv|exact Hkv|]. apply kapply_remove.
+    + (* a conditional removal unlinks only a node whose value is the observed one *)
+      eapply LIN_goto_unlock'; [exact HL|exact Ht|exact Hcur|exact Hnu|exact Hsh'|exact (proj1 Hkv)|].
+      eapply new_pt_write; [exact Htr|exact Hiv|exact Hkv|]. rewrite kop_of_cond. apply kapply_cond_hit.
   - (* CpLock *)
     destruct (lock_at (sh c) h) as [u|] eqn:Hl; [intros _; split; [exists pst, gpt, ghs; exact HL|left; reflexivity]|]. intros Hsh'.
     destruct (Hsame (set_lock (sh c) h (Some t)) eq_refl eq_refl) as [Hr Ha]. 
@@ -2511,6 +2548,32 @@ Example ex_by_theorem :
   all_done ex_cfg = true -> linearizable None (key_history ex_cfg 5) (Some (lookup (fun x => x) 2 ex_cfg 5)).
 Proof. unfold ex_cfg. apply binproto_linearizable. lia. Qed.
 
+(* ---------- non-vacuity for the conditional removal (retain): value changed, value still the
+   observed one, key absent; overlapping with inserts and gets on the same key ---------- *)
+Definition ex2_progs : list (list opn) :=
+  [ [OInsert 5 10; OCondRemove 5 77; OGet 5; OInsert 3 1; OCondRemove 5 10];
+    [OCondRemove 5 99; OInsert 5 11; OCondRemove 5 10; OGet 5];
+    [OCondRemove 7 0; OCondRemove 5 11; OGet 5] ].
+Definition ex2_sched : list nat := repeat 0 10 ++ concat (repeat [0;1;2;0;1;1;2;0] 30).
+Definition ex2_cfg : cfg := run (fun x => x) 2 (init 2 ex2_progs) ex2_sched.
+
+(* the calls on key 5, newest first: `KCondRemove 77` and `KCondRemove 99` find the value 10 (the
+   entry stays, the following get sees 10), `KCondRemove 11` unlinks the node, the later
+   `KCondRemove 10`s find the key absent *)
+Example ex2_ops :
+  map c_op (key_history ex2_cfg 5) =
+  [KGet None; KCondRemove 10; KCondRemove 10; KGet None; KCondRemove 11; KInsert 11 (Some 10%Z);
+   KCondRemove 99; KGet (Some 10%Z); KCondRemove 77; KInsert 10 None].
+Proof. vm_compute. reflexivity. Qed.
+Example ex2_done : all_done ex2_cfg = true.
+Proof. vm_compute. reflexivity. Qed.
+Example ex2_by_theorem :
+  all_done ex2_cfg = true -> linearizable None (key_history ex2_cfg 5) (Some (lookup (fun x => x) 2 ex2_cfg 5)).
+Proof. unfold ex2_cfg. apply binproto_linearizable. lia. Qed.
+Example ex2_linearizable :
+  linearizable None (key_history ex2_cfg 5) (Some (lookup (fun x => x) 2 ex2_cfg 5)).
+Proof. exact (ex2_by_theorem ex2_done). Qed.
+
 Print Assumptions binproto_inv.
 Print Assumptions binproto_live_sorted.
 Print Assumptions binproto_deadlock_free.
@@ -2520,3 +2583,4 @@ Print Assumptions binproto_linearizable_writers.
 Print Assumptions compute_atomic.
 Print Assumptions no_cross_key.
 Print Assumptions ex_linearizable.
+Print Assumptions ex2_linearizable.
